@@ -10,6 +10,8 @@ package main
 // Request ids: odd ids are handshake-type messages (SubscribeTx), even ids are not (GetTx).
 
 import (
+	"fmt"
+	"os"
 	"bytes"
 	"context"
 	"errors"
@@ -127,6 +129,8 @@ func runSendMachine(c *Case) ([]Obs, any) {
 			return tu.ID(&p.TxID)
 		case *client.Ready:
 			return -1
+		case *client.Ping:
+			return 300 // a request type (even id: not a handshake message)
 		}
 		return -2
 	}
@@ -209,6 +213,17 @@ func runSendMachine(c *Case) ([]Obs, any) {
 				running = nil
 				carried = r.carried
 				settle()
+				return Obs{OK}
+			case "pinger": // Run starts the keep-alive goroutine (real ping: one Ping every two minutes)
+				go func() {
+					err := rc.VerifPing(ctx, interrupt)
+					if os.Getenv("VERIF_DEBUG") != "" {
+						fmt.Fprintf(os.Stderr, "ping goroutine ended: %v\n", err)
+					}
+				}()
+				return Obs{OK}
+			case "sleep":
+				time.Sleep(time.Duration(op.Int(0)) * time.Millisecond)
 				return Obs{OK}
 			case "gensession": // what connect() does before it dials: a fresh session hash / server session key
 				h, err := rc.VerifGenerateSession()
